@@ -94,3 +94,10 @@ Definition direct_growth (process_drift sigma J0 : R) : R := process_drift + sig
 Definition deterministic_path (x0 process_drift t : R) : R := x0 + process_drift * t.
 (* MarkovChainProcess.initialisation: self._process_drift = model.drift() + a + mu_tilde - mu_h *)
 Definition ctmc_process_drift (model_drift a_tilde mu_tilde mu_h : R) : R := model_drift + a_tilde + mu_tilde - mu_h.
+(* mu_tilde = nu.integrate_against_x(-inf, -v) + nu.integrate_against_x(v, inf), v = 0 if finite variation else 1 *)
+Definition ctmc_mu_tilde (INF : R) (m1 : R -> R -> R) (fv : bool) : R :=
+  let v := if fv then 0 else 1 in m1 (- INF) (- v) + m1 v INF.
+(* growth rate of E exp(X_t) for X_t = process_drift t + sigma W_t + chain jumps, when the chain's jump law
+   (rates q_k on states x_k, sum q_k x_k = mu_h) is replaced by the exact one:
+   sum q_k (e^{x_k} - 1) = sum q_k (e^{x_k} - 1 - x_k) + mu_h  |->  Jc + mu_h  with  Jc = int (e^x - 1 - x) nu(dx) *)
+Definition ctmc_growth_exact (process_drift mu_h sigma Jc : R) : R := process_drift + mu_h + sigma ^ 2 / 2 + Jc.
